@@ -299,6 +299,9 @@ def run(ctx):
                 other["gen"] = {"gen_dfs": "gen_prim", "gen_prim": "gen_dfs", "gen_wilson": "gen_dfs", "gen_percolation": "gen_dfs_percolation",
                                 "gen_dfs_percolation": "gen_percolation"}[spec["gen"]]
             elif field == "kwargs":
+                # (an argument the generator of this spec accepts: gen_wilson takes none, so its foreign file differs in another field)
+                if spec["gen"] == "gen_wilson":
+                    continue
                 other["kwargs"] = dict(spec["kwargs"], **({"accessible_cells": 5} if spec["gen"] != "gen_percolation" else {"p": 0.9}))
             elif field == "endpoint_kwargs":
                 other["endpoint_kwargs"] = dict(spec["endpoint_kwargs"], deadend_end=True)
